@@ -2743,6 +2743,9 @@ class PerspConvex(Convex):
                  multiplier=1):
 
         super().__init__(affine_in, affine_out, xtype, sign, multiplier)
+        if isinstance(affine_scale, (Vars, VarSub, Affine)):
+            if affine_scale.model is not affine_in.model:
+                raise ValueError('Models mismatch.')
         self.affine_scale = affine_scale
 
     def __repr__(self):
